@@ -10,11 +10,11 @@ fuzz_target!(|data: &[u8]| {
     let r = mlv::fuzzglue::recipe_from_bytes(data);
     let mut st = Stats::default();
     if let Err(f) = mlv::props::c12::check_recipe(&r, &mut st) {
-        mlv::fuzzglue::violation(&f.message);
+        mlv::fuzzglue::report(&f, &["C12", "C13"]);
     }
     let mut r2 = r.clone();
     r2.k[0] %= 64; // shorter histories: more executions per second
     if let Err(f) = mlv::props::c13::check_recipe(&r2, &mut st) {
-        mlv::fuzzglue::violation(&f.message);
+        mlv::fuzzglue::report(&f, &["C12", "C13"]);
     }
 });
